@@ -47,9 +47,9 @@ ghost K.pivot_new uintptr
 ghost K.pivot_old uintptr
 ghost K.old_detached bool
 ghost K.old_removed bool
-ghost K.rl_cur map[uintptr]uint64
-ghost K.rl_max map[uintptr]uint64
-ghost K.rl_set map[uintptr]bool
+ghost K.rl_cur map[int]uint64
+ghost K.rl_max map[int]uint64
+ghost K.rl_set map[int]bool
 ghost K.traceme bool
 ghost K.stopped_self bool
 ghost K.sync_stage int               # 0 none, 1 ready word written, 2 ack read after it
@@ -125,7 +125,7 @@ CASES = [
  (170, "sethostname", ["K.host", "K.hostlen", "K.host_issued"], ["K.host == a1 && K.hostlen == a2 && K.host_issued"]),
  (171, "setdomainname", ["K.domain", "K.domainlen", "K.domain_issued"], ["K.domain == a1 && K.domainlen == a2 && K.domain_issued"]),
  (302, "prlimit64", ["K.rl_cur", "K.rl_max", "K.rl_set"], [
-   "err == 0 && a3 != 0 ==> K.rl_cur == old(K.rl_cur)[a2 := deref_as(ptr(a3), syscall.Rlimit).Cur] && K.rl_max == old(K.rl_max)[a2 := deref_as(ptr(a3), syscall.Rlimit).Max] && K.rl_set == old(K.rl_set)[a2 := true]",
+   "err == 0 && a3 != 0 ==> K.rl_cur == old(K.rl_cur)[int(a2) := deref_as(ptr(a3), syscall.Rlimit).Cur] && K.rl_max == old(K.rl_max)[int(a2) := deref_as(ptr(a3), syscall.Rlimit).Max] && K.rl_set == old(K.rl_set)[int(a2) := true]",
    "!(err == 0 && a3 != 0) ==> K.rl_cur == old(K.rl_cur) && K.rl_max == old(K.rl_max) && K.rl_set == old(K.rl_set)"]),
  (126, "capset", ["K.caps_empty"], [
    "err == 0 ==> K.caps_empty == (deref_as(ptr(a1), unix.CapUserHeader).Version == 537396514 && deref_as(ptr(a1), unix.CapUserHeader).Pid == 0 && deref_as(ptr(a2), unix.CapUserData).Effective == 0 && deref_as(ptr(a2), unix.CapUserData).Permitted == 0 && deref_as(ptr(a2), unix.CapUserData).Inheritable == 0)",
